@@ -28,7 +28,7 @@ ASSUMPTIONS = ["case flips touch raw letters only (hex digits of escapes are cov
                "not itself a two-letter ISO code", "under platform_aware=True suffix swaps are not applied to platform hosts (the platform rewrite is a different documented feature)",
                "language labels are only prepended when at least two labels remain after them"]
 FLOORS = ["class-compared", "T-case-any", "T-port-any", "T-lang-xx", "T-lang-xx-yy", "T-gl-hl", "T-suffix-swap", "T-subdomain", "T-tracking", "postcondition-checked", "overstrip-checked",
-          "opt-strip_suffix", "opt-platform_aware", "lang-with-www", "platform-host-gl-hl", "platform-preserving-under-platform_aware", "redirect-carrier-case-flip", "escaped-uppercase"]
+          "opt-strip_suffix", "opt-platform_aware", "lang-with-www", "platform-host-gl-hl", "platform-preserving-under-platform_aware", "redirect-carrier-case-flip", "escaped-uppercase", "data-iso-table-checked"]
 PROBE_FLOORS = ["strip_lang_subdomains_from_hostname", "fingerprint_url", "lang_query_item_filter"]
 
 CTX = [None]
@@ -238,6 +238,10 @@ def run(ctx):
     codes = iso_codes()
     try:
         if ctx.shard == 0:
+            # the ISO table is used as data by the generator: pin its size and spot entries so that a lost code is not invisible
+            ctx.count("data-iso-table-checked")
+            if len(codes) < 249 or any(c not in codes for c in ("FR", "US", "DE", "GB", "CN", "BR", "ZA", "JP", "AQ", "ZW")) or any(len(c) != 2 or c != c.upper() for c in codes):
+                ctx.viol("C06:data:iso-3166-table-changed", {"url": "<ISO_3166_1_COUNTRIES_ALPHA_2>", "options": "default"}, {"size": len(codes)})
             overstrip(ctx, fn)
             # the statement's own example
             for oname, opts in OPTSETS[1:2]:
